@@ -266,15 +266,29 @@ def run(rep, tier, root=None):
     rep.functions_analysed.add(mf.fq)
     C = Rat.sym("cov_mat", ("array",))
     mr = Interp(ix).returns(mf, [C])
-    want = Rat.atom(Fn("view", (Rat.atom(Fn("bitwise_or", (Rat.atom(Fn("view", (C, "int32"))),
-                                                            Rat.atom(Fn("view", (Rat.atom(Fn("T", (C,))), "int32")))))), "float32")))
+    # the upper triangle is the transposed strict lower triangle.  (The earlier implementation OR-ed the float32 bit patterns
+    # of the matrix and its transpose; that is a mirror only where one of the two entries is exactly +0, and inside the
+    # diagonal block of a sensor both triangles are computed - with different rounding residues where the value is 0.)
+    tril = lambda k_: Rat.atom(Fn("tril", (C,) + ((Rat.const(k_),) if k_ else ())))
     if len(mr) == 1:
         got = mr[0][1]
-        # bitwise_or is commutative
-        alt = Rat.atom(Fn("view", (Rat.atom(Fn("bitwise_or", (Rat.atom(Fn("view", (Rat.atom(Fn("T", (C,))), "int32"))),
-                                                                Rat.atom(Fn("view", (C, "int32")))))), "float32")))
-        rep.check(same_value(got, want) or same_value(got, alt), "lower.mirror", mf.fq + " == (C.view(i4) | C.T.view(i4)).view(f4)",
-                  "mirror is %s" % nf(got, 200), mf.where())
+        ors = [a for a in got.atoms() if isinstance(a, Fn) and a.name in ("bitwise_or", "bitwise_xor", "op_BitOr", "view")] if isinstance(got, Rat) else []
+        if ors:
+            rep.violation("lower.mirror", mf.fq + ": the upper triangle is the transposed lower triangle",
+                          "the two triangles are combined through their bit patterns (%s): where both entries are non-zero - the "
+                          "diagonal block of every sensor is computed on both sides, with the layers summed in a different order - the OR "
+                          "of two float32 patterns is a number with the larger exponent field OR-ed in, up to 2^63 times either entry; the "
+                          "result is not the covariance and not positive semi-definite" % sorted(set(a.name for a in ors)), mf.where())
+        else:
+            forms = []
+            for strict_first in (True, False):
+                lo, up = Rat.atom(Fn("tril", (C,))), Rat.atom(Fn("T", (Rat.atom(Fn("tril", (C, Rat.const(-1)))),)))
+                forms.append(lo + up)
+            forms.append(Rat.atom(Fn("tril", (C, Rat.const(-1)))) + Rat.atom(Fn("T", (Rat.atom(Fn("tril", (C,))),))))
+            rep.check(any(same_value(got, w_) for w_ in forms), "lower.mirror", mf.fq + " == tril(C) + tril(C, -1).T",
+                      "mirror is %s" % nf(got, 200), mf.where())
+    else:
+        rep.unknown("lower.mirror", mf.fq, "expected one path", mf.where())
     top = cls.find_method("make_covariance_matrix")
     rep.functions_analysed.add(top.fq)
     mcalls = [n for n in ast.walk(top.node) if isinstance(n, ast.Call) and norm_text(n.func) == "mirror_covariance_matrix"]
